@@ -159,9 +159,11 @@ Print Assumptions C20_own_dfxp_doc_model.
    contains the root element's closing tag is DFXP whatever else it contains; a document that opens with the <sami root
    tag and carries neither "</tt>" (any case) nor "WEBVTT" is SAMI.  Stream F checks every real DFXP / SAMI output to be
    such an instance. *)
-Theorem C20_own_output_dfxp_skeleton : forall pre post, detect_format (dfxp_document pre post) = Ok (Some R_DFXP).
+(* DEFINITIONAL (audit w7): this is the DFXP sniffer itself (first in the order) + is_infix of an append; it says nothing
+   about DFXPWriter - C20_own_nodes_dfxp does, through the string-level writer model *)
+Theorem C20_own_output_dfxp_skeleton_unfold : forall pre post, detect_format (dfxp_document pre post) = Ok (Some R_DFXP).
 Proof. exact own_dfxp_skeleton. Qed.
-Print Assumptions C20_own_output_dfxp_skeleton.
+Print Assumptions C20_own_output_dfxp_skeleton_unfold.
 Theorem C20_own_output_sami_skeleton : forall rest, free before_sami (sami_document rest) = true ->
   detect_format (sami_document rest) = Ok (Some R_SAMI).
 Proof. exact own_sami_skeleton. Qed.
